@@ -52,13 +52,16 @@ SigMatchBand(e, cl, o) ==
        [] cl.c = "lenient" -> o.t # ""
   /\ (<<"band", e.g, e.id>> \in DOMAIN learnt => learnt[<<"band", e.g, e.id>>] = o.t)
 
+\* Rec.lbl = FALSE: the record's owner (e.g. C03) leaves label TEXT to C09/C16;
+\* name, position and string type of the label attributes are still checked
 Match(e, o, mode) ==
   /\ o.n = e.n
   /\ CASE e.k = "i"   -> o.k = "i" /\ o.s = e.s /\ o.m = e.m
        [] e.k = "s"   -> o.k = "s" /\ o.c = e.c
        [] e.k = "txt" -> o.k = "s" /\ o.t = e.t
-       [] e.k = "prn" -> PrnMatch(PrnClass(e.g, e.id), o)
-       [] e.k = "sig" -> IF mode = "band" THEN SigMatchBand(e, SigClass(e.g, e.id), o)
+       [] e.k = "prn" -> IF Rec.lbl THEN PrnMatch(PrnClass(e.g, e.id), o) ELSE o.k = "s"
+       [] e.k = "sig" -> IF ~Rec.lbl THEN o.k = "s"
+                         ELSE IF mode = "band" THEN SigMatchBand(e, SigClass(e.g, e.id), o)
                          ELSE SigMatchRinex(SigClass(e.g, e.id), o)
        [] OTHER -> FALSE
 
@@ -66,7 +69,7 @@ Match(e, o, mode) ==
 SelfConsistent(obs) ==
   \A i, j \in 1 .. Len(attrs) :
      (attrs[i].k = "sig" /\ attrs[j].k = "sig" /\ attrs[i].id = attrs[j].id
-        /\ i <= Len(obs) /\ j <= Len(obs)) => obs[i].t = obs[j].t
+        /\ i <= Len(obs) /\ j <= Len(obs) /\ Rec.lbl) => obs[i].t = obs[j].t
 
 FirstBad(obs, mode) ==
   LET n == IF Len(obs) < Len(attrs) THEN Len(obs) ELSE Len(attrs)
